@@ -192,6 +192,11 @@ def all_cold_fields(ctx: Ctx) -> Set[str]:
             owner[name] = c
     ctx._all_cold_fields = out
     ctx._cold_owner = owner
+    inv = {}
+    for name, c in owner.items():
+        cache = lazy_caches(ctx, c)[name]
+        inv[name] = {ctx.pta._fq(f) for f, _ in cache.invalidate_sites}
+    ctx._cold_invalidators = inv
     return out
 
 
